@@ -86,8 +86,8 @@ theorem startOf_le (s t : Int) (hs : s ≤ t) (hm : minPartitionDateNs ≤ t) : 
   · simp only [HOUR] at *; omega
 
 /-- cover, general form: what matters for the end bound is that the row's HOUR starts before `end`. -/
-theorem paths_cover_trunc (hmin : minPartitionDateNs % HOUR = 0) (s e t : Int) (ps : Paths)
-    (h : generatePaths s e = some ps) (hs : s ≤ t) (he : t / HOUR * HOUR < e)
+theorem paths_cover_trunc (hmin : minPartitionDateNs % HOUR = 0) (s e t : Int) (incl : Bool) (ps : Paths)
+    (h : generatePaths s e incl = some ps) (hs : s ≤ t) (he : t / HOUR * HOUR < loopEnd e incl)
     (hm : minPartitionDateNs ≤ t) : hourOf t ∈ ps.hours ∧ dayOf t ∈ ps.days := by
   unfold generatePaths at h
   simp only [] at h
@@ -95,7 +95,7 @@ theorem paths_cover_trunc (hmin : minPartitionDateNs % HOUR = 0) (s e t : Int) (
   · cases h
   · injection h with h
     subst h
-    have hmem : t / HOUR ∈ loop (fuelFor (startOf s) e) (startOf s) e :=
+    have hmem : t / HOUR ∈ loop (fuelFor (startOf s) (loopEnd e incl)) (startOf s) (loopEnd e incl) :=
       loop_mem _ _ _ _ (startOf_aligned hmin s) (startOf_le s t hs hm) he (fuel_ok _ _)
     refine ⟨hmem, ?_⟩
     simp only [dayOf, mem_dedupAdj, List.mem_map]
@@ -112,6 +112,20 @@ theorem firstSome_some {l : List (Option Int)} {x : Int} (h : firstSome l = some
     | some y =>
       simp only [firstSome, Option.some.injEq] at h
       subst h
+      exact List.mem_cons_self
+
+theorem firstSomeP_some {l : List (Option Int × Bool)} {x : Int} {b : Bool}
+    (h : firstSomeP l = some (x, b)) : (some x, b) ∈ l := by
+  induction l with
+  | nil => simp [firstSomeP] at h
+  | cons a as ih =>
+    obtain ⟨o, c⟩ := a
+    cases o with
+    | none => simp only [firstSomeP] at h; exact List.mem_cons_of_mem _ (ih h)
+    | some y =>
+      simp only [firstSomeP, Option.some.injEq, Prod.mk.injEq] at h
+      obtain ⟨h1, h2⟩ := h
+      subst h1; subst h2
       exact List.mem_cons_self
 
 theorem absPat_some {now : Int} {suffix : Col → Bool} {op : Cmp} {txt : List BAtom} {s : Int}
